@@ -211,6 +211,53 @@ def gen_dep_jobs(tier, seed):
     return jobs
 
 
+def gen_typearg_jobs(tier, seed):
+    """Contexts over worlds whose arguments are types (type[...] annotations, also on a keyword-only parameter):
+    permuted registration and extra methods that are not applicable to the call - on an unrelated instance class,
+    with or without the keyword the others declare."""
+    from . import c14
+
+    rng = random.Random(seed * 4099 + 6)
+    jobs = []
+    src = c14.gen_jobs(tier, seed + 700)
+    rng.shuffle(src)
+    for j in src[: (60 if tier == "quick" else 1500)]:
+        w = j["world"]
+        els = w["elements"]
+        calls = list(j["calls"])
+        if not any(m["kwn"] for m in w["methods"]) and len(jobs) % 2 == 0:
+            # every method requires a keyword-only parameter annotated type[...]; every call passes a type for it
+            tyn = [n for n, e in enumerate(els, start=1) if e.get("k") in ("cls", "gen")]
+            for m in w["methods"]:
+                m["kwn"], m["kwt"], m["kwreq"] = ["k"], [worlds.cls(rng.choice(tyn))], [True]
+            for c in calls:
+                c["kwn"], c["kwa"] = ["k"], [{"c": rng.choice(tyn)}]
+        base = renumber(w["methods"])
+        haskw = any(m["kwn"] for m in base)
+        rng.shuffle(calls)
+        # a fresh, unrelated instance class for the extras (never an argument)
+        w2 = json.loads(json.dumps({k: v for k, v in w.items() if k != "methods"}))
+        w2["elbase"] = w2["elbase"] + [[1]]
+        newc = len(w2["elbase"])
+        w2["elements"] = els + [{"k": "inst", "c": newc}]
+        w2["parents"] = w2["parents"] + [[1]]
+        xnode = len(w2["elements"])
+        npos = len(base[0]["pos"])
+        for call in calls[: (2 if tier == "quick" else 4)]:
+            ctxs = [{"name": "base", "methods": base}]
+            for k in range(2):
+                ctxs.append({"name": f"regperm{k}", "methods": permute_distinct(rng, base)})
+            for x, withkw in enumerate([False, True] if haskw else [False]):
+                xm = worlds.mkmethod(f"x{x + 1}", 0, [xnode] + [1] * (npos - 1), prio=rng.choice([0, 1]),
+                                     kw=([("k", 1, False)] if withkw else ()))
+                xm["bare"] = False
+                ms = list(base)
+                ms.insert(rng.randint(0, len(ms)), xm)
+                ctxs.append({"name": "extra.unrelated" + (".kw" if withkw else ".nokw"), "methods": renumber(ms)})
+            jobs.append({"id": f"C06-t{len(jobs)}", "props": ["C06"], "world": w2, "call": call, "contexts": ctxs})
+    return jobs
+
+
 def run(prop, tier, seed, replay=None):
     rep = Report(prop, tier, seed)
     rep.assumptions = [
@@ -256,6 +303,13 @@ def run(prop, tier, seed, replay=None):
         else:
             merged[c["id"]] = c
     rep.extra["value_world_cases"] = len([c for c in dres if "skip" not in c])
+    tres = pool.run(workers.typearg_context_cases, gen_typearg_jobs(tier, seed))
+    for c in tres:
+        if "skip" in c:
+            skipped += 1
+        else:
+            merged[c["id"]] = c
+    rep.extra["type_argument_cases"] = len([c for c in tres if "skip" not in c])
     cases = list(merged.values())
     verdicts = {}
     B = 1500
